@@ -86,6 +86,8 @@ class Sim:
             self.changes += 1
         else:
             self.ctx.check(not ok, "invalid-palette-accepted", "invalid palette (%s) accepted: %r" % (args.get("why"), d))
+            ok2, _ = util.exc_name(self.objs[k].set_HTMLColorResiduePalette, dict(d))
+            self.ctx.check(not ok2, "invalid-palette-accepted-on-retry", "invalid palette (%s) accepted when offered a second time: %r" % (args.get("why"), d))
             self.rejected += 1
         if args.get("reuse") and args.get("edit_after"):
             # the caller goes on editing ITS dictionary after the call: the object must have taken a copy
